@@ -83,10 +83,6 @@ func (v Version) IvLabel() []byte {
 }
 
 func (v Version) InitialSecretLabel() []byte {
-	switch v {
-	case Version_V2:
-		return []byte("quicv2 client in")
-	default:
-		return []byte("client in")
-	}
+	// RFC 9369 section 3.3.2 renames only the key, iv, hp and ku labels.
+	return []byte("client in")
 }
